@@ -196,15 +196,26 @@ class Pool:
         return {"p": p, "conn": a, "busy": None, "cur": None, "t0": 0.0}
 
     def run(self, items: list, chunk: int = 8,
-            progress: Callable[[int, int], None] | None = None) -> dict:
-        """items: list of (key, batch, k, doc|None, want_doc). Returns key -> slim."""
+            progress: Callable[[int, int], None] | None = None,
+            max_lost: int = 6) -> dict:
+        """items: list of (key, batch, k, doc|None, want_doc). Returns key -> slim.
+
+        After max_lost scenarios hung or killed their worker, no further
+        work is handed out (the batch is going to be reported as violated
+        or broken anyway); results["__aborted__"] tells how many were skipped.
+        """
         from multiprocessing.connection import wait
         queue = [items[i:i + chunk] for i in range(0, len(items), chunk)]
         queue.reverse()
         results: dict = {}
         pending = 0
         total = len(items)
+        n_lost = 0
         while queue or pending:
+            if n_lost >= max_lost and queue:
+                skipped = sum(len(c) for c in queue)
+                queue.clear()
+                results["__aborted__"] = {"skipped": skipped}
             for w in self.procs:
                 if w["busy"] is None and queue:
                     job = queue.pop()
@@ -264,7 +275,8 @@ class Pool:
                         it = rest.pop(0)
                         results[it[0]] = {"key": it[0], "lost": why,
                                           "item": it}
-                    if rest:
+                    n_lost += 1
+                    if rest and n_lost < max_lost:
                         queue.append(rest)
                     pending -= 1
                     self.procs[idx] = self._spawn()
